@@ -130,6 +130,11 @@ def run(ctx):
     # the fingerprint computed only on the mempool path must accept exactly the argument shapes parse_args accepts (shared with C19.4)
     from . import c05, c19
     c05.c05_5(ctx, R="C08.1")
+    from . import c01_effects as _E
+    _E.entry_points_validate(ctx, "C08.1")
+    # limits that count *conditions* must not count distinct nodes: a compressed / interned generator shares identical atoms
+    # that the plainly parsed bundle holds as separate nodes (announcement arms of the effect table, shared with C01.4)
+    _E.c01_4(ctx, R="C08.1", only=("CreateCoinAnnouncement", "CreatePuzzleAnnouncement"))
     c19.c19_4(ctx, R="C08.1")
 
 
